@@ -123,6 +123,30 @@ def verbatim_case(rng):
     return 'x[%s]' % text, {'options': opts}, [('x', [m])]
 
 
+def field_class_cases():
+    """Class (and other) mentions whose written value ends in or consists of a tabstop field, followed by further
+    mentions of the same name: the field prints its placeholder (default output.field), the merge rules are unchanged."""
+    out = []
+    firsts = [('${1:foo}', 'foo'), ('a${1:foo}', 'afoo'), ('a${2}', 'a'), ('${1:f}${2:g}', 'fg'), ('${1:foo}b', 'foob')]
+    for written, shown in firsts:
+        for q in ('', '"'):
+            for rest in (['bar'], ['bar', 'baz']):
+                text = 'class=%s%s%s' % (q, written, q)
+                ms = [au.mention('class', shown, 'q2' if q else 'raw', text=text)]
+                ms += [au.mention('class', w, 'raw', text='.' + w, form='class') for w in rest]
+                abbr = 'x[%s]%s' % (text, ''.join('.' + w for w in rest))
+                for cfg in ({}, {'options': {'output.reverseAttributes': True}}):
+                    out.append((abbr, cfg, [('x', ms)], 'verbatim'))
+                # the shorthand first, the field-valued mention last
+                ms2 = [au.mention('class', w, 'raw', text='.' + w, form='class') for w in rest] + [ms[0]]
+                out.append(('x%s[%s]' % (''.join('.' + w for w in rest), text), {}, [('x', ms2)], 'verbatim'))
+        # a non-class name: last value wins, fields included
+        ms = [au.mention('t', shown, 'raw', text='t=' + written), au.mention('t', 'z', 'raw', text='t=z')]
+        out.append(('x[t=%s t=z]' % written, {}, [('x', ms)], 'verbatim'))
+        out.append(('x[t=z t=%s]' % written, {}, [('x', list(reversed(ms)))], 'verbatim'))
+    return out
+
+
 def check_verbatim(abbr, cfg, expected):
     plain = impl_expand(abbr, cfg)
     if plain[0] != 'ok':
@@ -200,6 +224,7 @@ def run(ctx):
     cases = []      # (abbr, cfg, expected, mode)
     cases += corpus_cases()
     n_corpus = len(cases)
+    cases += field_class_cases()
     ex = exhaustive_pairs()
     ex_cfgs = [{}, {'options': {'output.reverseAttributes': True}},
                {'syntax': 'xml', 'options': {'output.compactBoolean': True}},
